@@ -684,6 +684,33 @@ def generators_to_loops(tree):
     return count[0]
 
 
+def slice_objects_to_slices(tree):
+    """N37  X[slice(a, b)] / X[slice(a, b, c)] / X[slice(b)]  ->  X[a:b] / X[a:b:c] / X[:b]"""
+    count = [0]
+
+    class T(ast.NodeTransformer):
+        def visit_Subscript(self, node):
+            self.generic_visit(node)
+            sl = node.slice
+            if isinstance(sl, ast.Call) and isinstance(sl.func, ast.Name) and sl.func.id == 'slice' and not sl.keywords and 1 <= len(sl.args) <= 3 \
+                    and not any(isinstance(a, ast.Starred) for a in sl.args):
+                a = list(sl.args)
+
+                def n(x):
+                    return None if isinstance(x, ast.Constant) and x.value is None else x
+                if len(a) == 1:
+                    new = ast.Slice(lower=None, upper=n(a[0]), step=None)
+                elif len(a) == 2:
+                    new = ast.Slice(lower=n(a[0]), upper=n(a[1]), step=None)
+                else:
+                    new = ast.Slice(lower=n(a[0]), upper=n(a[1]), step=n(a[2]))
+                node.slice = ast.copy_location(new, sl)
+                count[0] += 1
+            return node
+    T().visit(tree)
+    return count[0]
+
+
 def flatten_starred_displays(tree):
     """N16: `(a, *(b, c), d)` -> `(a, b, c, d)` (also for lists and call arguments)"""
     count = [0]
